@@ -527,10 +527,16 @@ type e2e struct {
 	v     interface {
 		notation.Verifier
 		notation.BlobVerifier
-		SkipVerify(ctx context.Context, opts notation.VerifierVerifyOptions) (bool, *trustpolicy.VerificationLevel, error)
 	}
-	ts    *memStore
-	built bool
+	// the optional skip interface of notation.go (unexported there), obtained by a RUNTIME assertion as
+	// notation.Verify does: nil when the verifier does not satisfy it (= it never skips)
+	skipper skipVerifier
+	ts      *memStore
+	built   bool
+}
+
+type skipVerifier interface {
+	SkipVerify(ctx context.Context, opts notation.VerifierVerifyOptions) (bool, *trustpolicy.VerificationLevel, error)
 }
 
 const noVerifier = other + ":no-verifier"
@@ -545,7 +551,8 @@ func newE2E(stmts []Stmt, d *docObj) *e2e {
 		// observed, not assumed: the constructor refused the document
 		return &e2e{stmts: stmts, ts: ts}
 	}
-	return &e2e{stmts: stmts, v: v, ts: ts, built: true}
+	sk, _ := any(v).(skipVerifier)
+	return &e2e{stmts: stmts, v: v, skipper: sk, ts: ts, built: true}
 }
 
 var garbage = []byte(`{"not":"an envelope"}`)
@@ -568,8 +575,11 @@ func (e *e2e) skipOCI(ref string) string {
 	if !e.built {
 		return noVerifier
 	}
+	if e.skipper == nil {
+		return other + ":no-skipper"
+	}
 	e.ts.log = nil
-	skip, lv, err := e.v.SkipVerify(context.Background(), notation.VerifierVerifyOptions{ArtifactReference: ref, SignatureMediaType: common.MediaJWS})
+	skip, lv, err := e.skipper.SkipVerify(context.Background(), notation.VerifierVerifyOptions{ArtifactReference: ref, SignatureMediaType: common.MediaJWS})
 	var npe notation.ErrorNoApplicableTrustPolicy
 	if err != nil {
 		if errors.As(err, &npe) && !skip && lv == nil && len(e.ts.log) == 0 {
